@@ -373,7 +373,7 @@ def shard_files(sh: Shard):
 
 def main(tier, seed):
     run = Run("C04", tier, seed, "exploration")
-    k = 1 if tier == "quick" else 8
+    k = 1 if tier == "quick" else 30
     jobs = []
     res = []
     res += run_shards("checks.c04", "shard_messages", [{"seed": seed * 100 + i, "n_random": 600 * k} for i in range(6)], timeout=1500)
